@@ -18,12 +18,12 @@ import vcore as V  # noqa: E402
 import props as P  # noqa: E402
 
 
-def confirm_alone(harness, scratch, case_line, limit="50s"):
+def confirm_alone(harness, scratch, case_line, limit="50s", cmd="replay"):
     """Re-runs one case alone in a fresh process (10x time budget)."""
     p = scratch.path("confirm.ndjson")
     with open(p, "w") as f:
         f.write(case_line if case_line.endswith("\n") else case_line + "\n")
-    r = V.replay(harness, p, scratch.path("confirm.res"), nworkers=1, limit=limit)
+    r = V.replay(harness, p, scratch.path("confirm.res"), nworkers=1, limit=limit, cmd=cmd)
     return r[0] if r else None
 
 
@@ -75,6 +75,53 @@ def run_s2c(prop, tier, seed, opts):
         all_failing = []
         trace_rejects = []
         for st in spec["stages"]:
+            if st.get("c2s"):
+                # code -> spec: a random Go driver runs the real engine far beyond TLC's exhaustive bounds;
+                # what it did is recorded and validated by the TLC trace spec
+                c2 = st["c2s"]
+                genp = scratch.path("c2s-%s.ndjson" % st["name"])
+                g = subprocess.run([harness, "gen", c2["gen"], "-seed", str(seed), "-n", str(c2["n"][tier]), "-len", str(c2.get("len", 60))],
+                                   capture_output=True, text=True)
+                if g.returncode != 0 or not g.stdout.strip():
+                    raise V.Broken("generator %s failed: %s" % (c2["gen"], g.stderr[-1000:]))
+                with open(genp, "w") as f:
+                    f.write(g.stdout)
+                obs_path = scratch.path("c2s-obs-%s.ndjson" % st["name"])
+                results = V.replay(harness, genp, scratch.path("c2s-res-%s.ndjson" % st["name"]), nworkers=1, obs_path=obs_path, cmd=c2["cmd"])
+                consumed, rejected, tres = V.validate_trace(scratch, c2["trace"]["module"], c2["trace"]["cfg"], obs_path,
+                                                            sub="c2s-trace-" + st["name"], timeout=c2["trace"].get("timeout", 900))
+                with open(obs_path) as f:
+                    obs_lines = f.readlines()
+                if consumed != len(obs_lines):
+                    raise V.Broken("trace spec %s consumed %d of %d lines" % (c2["trace"]["module"], consumed, len(obs_lines)))
+                import re as _re
+                m = _re.search(r'"SKIPPED", (\d+)', tres["out"])
+                if m and int(m.group(1)) > 0:
+                    raise V.Broken("random driver %s produced %s operations that are not enabled in the specification" % (c2["gen"], m.group(1)))
+                total_states += tres["states"]
+                total_distinct += tres["distinct"]
+                n_cases += len(results)
+                n_runs += len(obs_lines)
+                for r in results:
+                    keys_nontrivial.add(r.get("key"))
+                    if not r["pass"]:
+                        all_failing.append((r, None, c2["cmd"]))
+                stage_info.append(dict(stage=st["name"], kind="code->spec trace validation", trace_spec=c2["trace"]["module"],
+                                       traces=len(results), events=len(obs_lines), rejected=len(rejected)))
+                samples.append({"stage": st["name"], "trace_head": [json.loads(x) for x in obs_lines[:3]]})
+                trace_rejects.extend((dict(trace=c2["trace"]), json.loads(obs_lines[i - 1])) for i in rejected[:50])
+                if opts.get("selftest") or tier == "thorough":
+                    mut = scratch.path("c2s-mut.ndjson")
+                    with open(mut, "w") as f:
+                        for i, l in enumerate(obs_lines[:300]):
+                            o = json.loads(l)
+                            if i == 11 and isinstance(o.get("obs"), dict):
+                                o["obs"]["served"] = 7
+                            f.write(json.dumps(o) + "\n")
+                    _, r2, _ = V.validate_trace(scratch, c2["trace"]["module"], c2["trace"]["cfg"], mut, sub="c2s-self")
+                    if 12 not in r2:
+                        raise V.Broken("binding self-test: corrupted trace line was accepted by %s" % c2["trace"]["module"])
+                continue
             if tier not in st["cfg"]:
                 continue
             files = {}
@@ -102,7 +149,7 @@ def run_s2c(prop, tier, seed, opts):
             total_distinct += res["distinct"]
             obs_path = scratch.path("obs-%s.ndjson" % st["name"]) if st.get("trace") else None
             results = V.replay(harness, res["cases"], scratch.path("res-%s.ndjson" % st["name"]),
-                               limit=st.get("limit", "5s"), obs_path=obs_path)
+                               limit=st.get("limit", "5s"), obs_path=obs_path, cmd=st.get("cmd", "replay"))
             trace_info = None
             if st.get("trace"):
                 # code -> spec: TLC validates what the implementation produced
@@ -148,7 +195,7 @@ def run_s2c(prop, tier, seed, opts):
             if trace_info:
                 stage_info[-1]["trace"] = trace_info
             for r in failing:
-                all_failing.append((r, case_lines.get(r.get("key"))))
+                all_failing.append((r, case_lines.get(r.get("key")), st.get("cmd", "replay")))
             # binding self-test on a sample of this stage
             if opts.get("selftest") or tier == "thorough":
                 sample_lines = list(case_lines.values())[:40]
@@ -162,26 +209,26 @@ def run_s2c(prop, tier, seed, opts):
                 stage_info[-1]["selftest_rejected"] = len(mres)
         # triage
         unexplained = []
-        for (r, line) in all_failing:
+        for (r, line, cmd) in all_failing:
             k = V.attribute(r, active)
             if k is not None:
                 hit.setdefault(k.get("what"), 0)
                 hit[k.get("what")] += 1
             else:
-                unexplained.append((r, line))
+                unexplained.append((r, line, cmd))
         if opts.get("triage"):
-            for (r, line) in unexplained[:60]:
+            for (r, line, cmd) in unexplained[:60]:
                 f0 = r["fails"][0]
                 print("TRIAGE %s | %s | %s | got=%r want=%r | tags=%s" % (
                     f0.get("run"), f0.get("src"), f0.get("why"), f0.get("got"), f0.get("want"), sorted(V.fail_tags(r))))
             print("TRIAGE total unexplained failing cases: %d" % len(unexplained))
         confirmed = 0
-        for (r, line) in unexplained:
+        for (r, line, cmd) in unexplained:
             if confirmed >= 10:
                 break
             if line is None:
                 continue
-            r2 = confirm_alone(harness, scratch, line)
+            r2 = confirm_alone(harness, scratch, line, cmd=cmd)
             if r2 is None or r2["pass"]:
                 notes.append("NOTE failure not reproduced alone: %s" % r.get("src"))
                 continue
